@@ -555,10 +555,10 @@ func genHistory(r *rand.Rand, h int, thorough bool) (*histInput, []string) {
 				st.Kind = "switch-file-back"
 			} else {
 				st.File = fmt.Sprintf("data%d.csv", nFiles)
-				if os.Getenv("VERIF_HIST_SAMEBASE") != "" && r.Intn(2) == 0 {
-					// opt-in: a file of the same base name in another directory (exports kept per month, say).
-					// Off by default: the cached temporary commit remembers only the base name of its file, so
-					// on the unchanged tree an older file of the same name is taken for the cached one.
+				if r.Intn(2) == 0 {
+					// a file of the same base name in another directory (exports kept per month, say): the
+					// cached temporary commit used to remember only the base name of its file, so an older
+					// file of the same name was taken for the cached one (repaired in wrgl, 3fcfe7f)
 					st.File = fmt.Sprintf("dir%d/%s", nFiles, filepath.Base(cur.File))
 				}
 				nFiles++
